@@ -15,14 +15,55 @@ ExtType = collections.namedtuple("ExtType", "code data")
 INT_MIN, INT_MAX = -(2**63), 2**64 - 1
 
 
+_SPEC = None
+
+
+def spec_codec():
+    """The byte-level codec written from the msgpack specification (/verif/spec/msgpack_spec.py)."""
+    global _SPEC
+    if _SPEC is None:
+        import importlib.util
+        import os
+
+        f = os.path.join(os.path.dirname(os.path.dirname(os.path.dirname(os.path.abspath(__file__)))), "spec", "msgpack_spec.py")
+        sp = importlib.util.spec_from_file_location("msgpack_spec", f)
+        _SPEC = importlib.util.module_from_spec(sp)
+        sp.loader.exec_module(_SPEC)
+    return _SPEC
+
+
 class MPBytes:
-    """Result of packb: the msgpack tree (abstract bytes)."""
+    """Result of packb: the msgpack tree (abstract bytes).
+
+    `concrete` holds the byte string the msgpack specification assigns to the tree when every leaf is concrete (then `length` is its
+    length); otherwise the bytes are abstract and `length` is a fresh positive integer term (an encoding is never empty)."""
+
+    _n = 0
 
     def __init__(self, tree):
         self.tree = tree
+        try:
+            self.concrete = spec_codec().encode(tree)
+            self.length = len(self.concrete)
+        except OverflowError:
+            raise
+        except Exception:
+            self.concrete = None
+            MPBytes._n += 1
+            self.length = z3.Int(f"mplen!{MPBytes._n}")
 
     def __repr__(self):
         return f"<msgpack {self.tree!r}>"
+
+
+class MPTrunc:
+    """A proper prefix (possibly empty) of a packed blob: what a reader gets from a file that ends inside a frame body."""
+
+    def __init__(self, blob, length):
+        self.blob, self.length = blob, length
+
+    def __repr__(self):
+        return f"<truncated msgpack {self.length} of {self.blob!r}>"
 
 
 def tree_of(it, obj, default, used=False):
@@ -65,7 +106,10 @@ def m_packb(it, obj, default=None, use_bin_type=True, unicode_errors="strict", *
          "`default` is called once for anything else; unpackb(use_list=False, raw=False) is the inverse walk calling ext_hook; "
          "strings are the identity on the canonical (surrogateescape round-trippable) domain")
     it.event("packb-options", ("use_bin_type", use_bin_type), ("unicode_errors", unicode_errors))
-    return MPBytes(tree_of(it, obj, default))
+    b = MPBytes(tree_of(it, obj, default))
+    if b.concrete is None:
+        it.assume(b.length >= 1)
+    return b
 
 
 def untree(it, t, ext_hook, use_list):
@@ -84,7 +128,24 @@ def untree(it, t, ext_hook, use_list):
     raise Unsupported("msgpack tree node")
 
 
+def tree_of_bytes(t):
+    """Decoded concrete trees keep ext payloads as bytes; nothing to convert."""
+    return t
+
+
 def m_unpackb(it, data, ext_hook=None, use_list=True, raw=False, unicode_errors="strict", **kw):
+    data = it.unbase(data)
+    if isinstance(data, MPTrunc):
+        note("msgpack-prefix-free", "no proper prefix of a msgpack encoding is itself a complete encoding: unpackb of a truncated value raises ValueError (incomplete input), never returns a value")
+        raise PyRaise(ValueError("Unpack failed: incomplete input"))
+    if isinstance(data, (bytes, bytearray)):
+        S = spec_codec()
+        try:
+            t = S.decode(bytes(data))
+        except ValueError as e:
+            raise PyRaise(ValueError(str(e)))
+        it.event("unpackb-options", ("use_list", use_list), ("raw", raw), ("unicode_errors", unicode_errors))
+        return untree(it, t, ext_hook, use_list)
     if not isinstance(data, MPBytes):
         raise Unsupported("unpackb of bytes that were not produced by the msgpack model")
     it.event("unpackb-options", ("use_list", use_list), ("raw", raw), ("unicode_errors", unicode_errors))
